@@ -282,16 +282,9 @@ func (sc *collection) doBuild(ctx context.Context) (Provider, error) {
 	default:
 	}
 
-	var err error
-	rootCtx := context.Background()
-	p.rootScope, err = newScope(p, nil, rootCtx, nil)
-	if err != nil {
-		return nil, &BuildError{
-			Phase:   "scope-creation",
-			Details: "failed to create root scope",
-			Cause:   err,
-		}
-	}
+	// The root scope's initialization functions run after the singletons
+	// exist (phase 7), because they may depend on them
+	p.rootScope = newUninitializedScope(p, nil, context.Background(), nil)
 
 	// Phase 6: Create singletons with context propagation
 	if err := p.createAllSingletonsWithContext(ctx); err != nil {
@@ -308,6 +301,25 @@ func (sc *collection) doBuild(ctx context.Context) (Provider, error) {
 		return nil, &BuildError{
 			Phase:   "singleton-creation",
 			Details: "failed to initialize singletons",
+			Cause:   err,
+		}
+	}
+
+	// Phase 7: Run the root scope's initialization functions
+	if err := p.rootScope.runInitializers(); err != nil {
+		// Clean up partially created provider
+		closeErr := p.Close()
+		if closeErr != nil {
+			return nil, &BuildError{
+				Phase:   "cleanup",
+				Details: "failed to clean up partially created provider",
+				Cause:   closeErr,
+			}
+		}
+
+		return nil, &BuildError{
+			Phase:   "scope-creation",
+			Details: "failed to create root scope",
 			Cause:   err,
 		}
 	}
